@@ -84,8 +84,8 @@ Definition edits_of (h : list step) : list edit :=
 
 (* HedTag.short_base_tag setter, as used by HedString.expand_defs / shrink_defs
    (Def <-> Def-expand): the schema entry -- hence short_tag -- is replaced.
-   [fx4 = false]: the code before fix-F4 leaves tag_terms as it was;
-   [fx4 = true]: tag_terms is refreshed from the new entry. *)
+   [fx4 = false]: behaviour before fix commit c19994c: tag_terms was left as it was;
+   [fx4 = true]: current code: tag_terms is refreshed from the new entry. *)
 Definition rebase_tag (fx4 : bool) (new_terms : list str) (new_short : str) (t : node) : node :=
   match t with
   | Tag i terms _ o => Tag i (if fx4 then new_terms else terms) new_short o
